@@ -171,6 +171,10 @@ func (r *Run) NViolations() int {
 	return n
 }
 
+// Enough reports that plenty of witnesses have been collected: every further failing case usually costs a
+// watchdog, so generators stop producing cases (the run then ends with the violations it has).
+func (r *Run) Enough() bool { return r.NViolations() >= 12 }
+
 func (r *Run) Inconclusive(reason string) {
 	r.mu.Lock()
 	r.res.Inconclusive[reason]++
